@@ -1005,11 +1005,14 @@ pub(crate) struct ExcHandler {
     pub(crate) nested_trys: usize,
 }
 
-/// A `return` that is waiting for a finally block to finish.
+/// A `return`, or a propagating exception, that is waiting for a finally block to finish.
 #[derive(Clone, Copy, Debug)]
 pub(crate) struct PendingReturn {
+    /// The value being returned, or the exception.
     pub(crate) value: Value,
     pub(crate) ip: *const u8,
+    /// Whether `value` is an exception to be thrown again once the finally block has finished.
+    pub(crate) rethrow: bool,
     /// The frame that is returning.
     pub(crate) frame_count: usize,
     /// Number of handlers that enclose the finally block being waited for.
@@ -1036,7 +1039,6 @@ pub struct ObjFiber {
     pub(crate) pending_returns: Vec<PendingReturn>,
     pub(crate) exc_handlers: Vec<ExcHandler>,
     pub(crate) error_ip: Option<*const u8>,
-    pub(crate) handling_exception: bool,
 }
 
 impl ObjFiber {
@@ -1059,7 +1061,6 @@ impl ObjFiber {
             pending_returns: Vec::new(),
             exc_handlers: Vec::new(),
             error_ip: None,
-            handling_exception: false,
         }
     }
 
@@ -1146,9 +1147,9 @@ impl ObjFiber {
         self.exc_handlers.pop()
     }
 
-    /// Called where a try statement ends. Completes the pending return of the current frame if this
-    /// is the end of the finally block it was waiting for.
-    pub(crate) fn take_return_data(&mut self) -> Option<(Value, *const u8)> {
+    /// Called where a try statement ends. Yields the pending return or exception of the current frame
+    /// if this is the end of the finally block it was waiting for.
+    pub(crate) fn take_return_data(&mut self) -> Option<PendingReturn> {
         let frame_count = self.frames.len();
         let pending = self.pending_returns.last_mut()?;
         if pending.frame_count != frame_count {
@@ -1158,7 +1159,7 @@ impl ObjFiber {
             pending.nested_trys -= 1;
             return None;
         }
-        self.pending_returns.pop().map(|p| (p.value, p.ip))
+        self.pending_returns.pop()
     }
 
     /// Called when an exception is delivered to `handler`, which has just been popped.
